@@ -12,6 +12,7 @@
 #include "hdf.h"
 #include "mfhdf.h"
 #include <stdio.h>
+#include <sys/resource.h>
 #include <stdlib.h>
 #include <string.h>
 #include <sys/mman.h>
@@ -1013,16 +1014,40 @@ case_open_files(long p)
     int sd = p >= 4;
     if (sd)
         n = p == 4 ? 32 : p == 5 ? 33 : 40;
-    snprintf(g_case, sizeof g_case, "%d distinct files open at once through %s (MAX_FILE is 32)", n, sd ? "SDstart" : "Hopen");
+    if (p >= 7) {
+        /* the SD layer sizes its file table by the process's limit on open files (minus 3 for stdin/stdout/stderr): with that
+           limit lowered, two more files than the table can ever hold are opened - each is either refused or works */
+        static const int LIM[3] = {40, 67, 100};
+        struct rlimit    rl;
+        if (getrlimit(RLIMIT_NOFILE, &rl) != 0 || (rl.rlim_cur = (rlim_t)LIM[p - 7], setrlimit(RLIMIT_NOFILE, &rl)) != 0) {
+            mc_harness_error("cannot lower RLIMIT_NOFILE");
+            return;
+        }
+        n = LIM[p - 7] - 3 + 2;
+        snprintf(g_case, sizeof g_case, "one file opened %d times at once through SDstart(DFACC_READ) with the process limit on open files lowered to %d", n, LIM[p - 7]);
+    }
+    else
+        snprintf(g_case, sizeof g_case, "%d distinct files open at once through %s (MAX_FILE is 32)", n, sd ? "SDstart" : "Hopen");
     mc_set_case("%s", g_case);
-    int32 ids[64];
+    int32 ids[128];
     int   nopen = 0, refused = 0;
     char  path[64];
     uint8 b[4] = {1, 2, 3, 4};
+    int samefile = p >= 7; /* one file with one data set, opened read-only n times (ids of their own, one stream) */
+    if (samefile) {
+        int32 d[1] = {4}, st[1] = {0};
+        vfs_remove_file("/vmem/c20_0.hdf");
+        int32 S = SDstart("/vmem/c20_0.hdf", DFACC_CREATE), ds = SDcreate(S, "d", DFNT_UINT8, 1, d);
+        if (S == FAIL || ds == FAIL || SDwritedata(ds, st, NULL, d, b) == FAIL || SDendaccess(ds) == FAIL || SDend(S) == FAIL) {
+            mc_harness_error("cannot create the file to be opened many times");
+            return;
+        }
+    }
     for (int i = 0; i < n; i++) {
-        snprintf(path, sizeof path, "/vmem/c20_%d.hdf", i);
-        vfs_remove_file(path);
-        int32 id = sd ? SDstart(path, DFACC_CREATE) : Hopen(path, DFACC_CREATE, 16);
+        snprintf(path, sizeof path, "/vmem/c20_%d.hdf", samefile ? 0 : i);
+        if (!samefile)
+            vfs_remove_file(path);
+        int32 id = samefile ? SDstart(path, DFACC_READ) : sd ? SDstart(path, DFACC_CREATE) : Hopen(path, DFACC_CREATE, 16);
         if (id == FAIL) {
             refused++;
             if (i < (sd ? 32 : 32))
@@ -1032,6 +1057,8 @@ case_open_files(long p)
         /* neither layer has a fixed table of MAX_FILE slots any more (H: dynamic atoms; SD: raised on demand up to the
            system limit): more than 32 may be accepted, and then has to work */
         ids[nopen++] = id;
+        if (samefile)
+            continue;
         if (!sd)
             Hputelement(id, 1000, (uint16)(i + 1), b, 4);
         else {
@@ -1042,12 +1069,20 @@ case_open_files(long p)
             SDendaccess(s);
         }
     }
+    /* every id that was handed out designates a working file */
+    for (int i = 0; i < nopen && sd; i++) {
+        int32 nds = -1, nat = -1;
+        if (SDfileinfo(ids[i], &nds, &nat) == FAIL || nds != 1) {
+            mc_violation("accepted-open-unusable:SDstart", "%s: the %d-th id handed out by SDstart does not work (SDfileinfo fails or reports %d data sets)", g_case, i, (int)nds);
+            break;
+        }
+    }
     /* after a refusal: closing one makes room again */
     if (refused && nopen) {
         int32 rc = sd ? SDend(ids[--nopen]) : Hclose(ids[--nopen]);
         expect(MUST_OK, rc == FAIL, "close-after-refused-open");
         vfs_remove_file("/vmem/c20_again.hdf");
-        int32 id = sd ? SDstart("/vmem/c20_again.hdf", DFACC_CREATE) : Hopen("/vmem/c20_again.hdf", DFACC_CREATE, 16);
+        int32 id = samefile ? SDstart("/vmem/c20_0.hdf", DFACC_READ) : sd ? SDstart("/vmem/c20_again.hdf", DFACC_CREATE) : Hopen("/vmem/c20_again.hdf", DFACC_CREATE, 16);
         expect(MUST_OK, id == FAIL, "open-after-making-room");
         if (id != FAIL)
             ids[nopen++] = id;
@@ -1176,7 +1211,7 @@ static const family_t FAM[] = {
     {"sd-size", case_sd_size, 9, 9},
     {"gr-ncomp", case_gr_ncomp, 7, 7},
     {"gr-size", case_gr_size, 6, 6},
-    {"open-files", case_open_files, 7, 7},
+    {"open-files", case_open_files, 10, 10},
     {"h-args", case_h_args, 8, 8},
 };
 #define NFAM ((int)(sizeof FAM / sizeof FAM[0]))
